@@ -64,6 +64,8 @@ class Driver:
             return s.bind_sasl(mech, dn, cred, controls=_ctl(ctl))
         if k == "search":
             _, base, scope, deref, size, tm, to, flt, attrs, ctl = action
+            if self.n % 2:  # the members an application writes by name; otherwise the plain ints (IntEnum members are ints)
+                scope, deref = av.enum_by_number(sl.SearchScope, av.SCOPE_NAMES, scope), av.enum_by_number(sl.DereferencingPolicy, av.DEREF_NAMES, deref)
             return s.search_request(base, scope, deref, size, tm, to, av.b_filter(flt) if flt is not None else None, list(attrs) if attrs is not None else None, controls=_ctl(ctl))
         if k == "extended":
             _, name, value, ctl = action
@@ -75,10 +77,10 @@ class Driver:
             action = (action[0], int(str(action[1]))) + tuple(action[2:])
         if k == "bind_response":
             _, mid, sasl, code, matched, diag, ctl = action
-            return s.bind_response(mid, sasl_creds=sasl, result_code=sl.LDAPResultCode(code), matched_dn=matched, diagnostics_message=diag, controls=_ctl(ctl))
+            return s.bind_response(mid, sasl_creds=sasl, result_code=av.enum_by_number(sl.LDAPResultCode, av.RESULT_NAMES, code), matched_dn=matched, diagnostics_message=diag, controls=_ctl(ctl))
         if k == "extended_response":
             _, mid, name, value, code, matched, diag, ctl = action
-            return s.extended_response(mid, name=av.enum_name(name, self.n), value=value, result_code=sl.LDAPResultCode(code), matched_dn=matched, diagnostics_message=diag, controls=_ctl(ctl))
+            return s.extended_response(mid, name=av.enum_name(name, self.n), value=value, result_code=av.enum_by_number(sl.LDAPResultCode, av.RESULT_NAMES, code), matched_dn=matched, diagnostics_message=diag, controls=_ctl(ctl))
         if k == "entry":
             _, mid, name, attrs, ctl = action
             return s.search_result_entry(mid, name, [sl.PartialAttribute(n, list(v)) for n, v in attrs], controls=_ctl(ctl))
@@ -87,7 +89,7 @@ class Driver:
             return s.search_result_reference(mid, list(uris), controls=_ctl(ctl))
         if k == "done":
             _, mid, code, matched, diag, ctl = action
-            return s.search_result_done(mid, result_code=sl.LDAPResultCode(code), matched_dn=matched, diagnostics_message=diag, controls=_ctl(ctl))
+            return s.search_result_done(mid, result_code=av.enum_by_number(sl.LDAPResultCode, av.RESULT_NAMES, code), matched_dn=matched, diagnostics_message=diag, controls=_ctl(ctl))
         if k == "receive":
             return s.receive(action[1])
         raise ValueError(k)
